@@ -233,3 +233,220 @@ def r_sign_carrier(cx):
               "%s is not of the form signum(x) * g(|x|): the sign of an input with zero whole degrees (e.g. -0030.6) "
               "passes through a value that cannot hold it" % name, cx.where(f.d["span"]))
     cx.count("R-SIGN-CARRIER", "packed_converters", k)
+
+
+# ---------------------------------------------------------------------------------------------------------------------
+# R-ITER-CAP-AGREE (C06, C10): the non-convergence test of the geodesic operator can fire
+
+@rule("R-ITER-CAP-AGREE", ["C06", "C10"])
+def r_iter_cap_agree(cx):
+    """geodesic_inv reports the number of iterations it used in element 3 of its result, capped by the bound N of its
+    loop (`while i < N`). The geodesic operator declares non-convergence when that element exceeds a threshold T.
+    The two constants live in different modules and must agree: T < N (otherwise the test can never fire and an
+    unconverged result is returned as valid), and the value tested is the element as returned (not yet overwritten)."""
+    import elems as E
+    g = cx.f.fn("ellipsoid::geodesics::Geodesics::geodesic_inv")
+    caps = []
+    for lp in g.loops():
+        for bb in sorted(lp.body):
+            t = g.term(bb)
+            if t["k"] != "switch":
+                continue
+            c = g.operand(t["discr"], g.end_point(bb))
+            if c[0] == "bin" and c[1] in ("Lt", "Le") and c[3][0] == "const" and isinstance(c[3][2], int) and \
+                    c[2][0] in ("loopphi", "phi"):
+                caps.append((c[3][2] + (1 if c[1] == "Le" else 0), c[2]))
+    rt = E.return_term(g)
+    es = E.elems(g, rt, None) if rt is not None else None
+    counter_ok = False
+    if es is not None and caps:
+        cnt = caps[0][1]
+
+        def has(x):
+            hit = []
+
+            def v(y):
+                if y == cnt:
+                    hit.append(1)
+                return True
+            mir.walk(x, v)
+            return bool(hit)
+        counter_ok = has(es[3])
+    cx.ob("R-ITER-CAP-AGREE", "geodesic_inv/reports-count", bool(caps) and counter_ok,
+          "geodesic_inv iterates under a constant cap (%s) and returns its iteration counter in element 3" % (
+              caps[0][0] if caps else "?") if caps and counter_ok else
+          "geodesic_inv: no constant iteration cap found, or element 3 of the result is not the iteration counter",
+          cx.where(g.d["span"]))
+    n = 0
+    for fn in ("inner_op::geodesic::inv",):
+        f = cx.f.fn(fn)
+        for bb in sorted(f.reachable()):
+            t = f.term(bb)
+            if t["k"] != "switch":
+                continue
+            c = f.operand(t["discr"], f.end_point(bb))
+            if not (c[0] == "bin" and c[1] in ("Gt", "Ge") and c[3][0] == "const"):
+                continue
+            lhs = c[2]
+            calls = []
+
+            def v(y):
+                if y[0] == "call" and isinstance(y[1], str) and y[1].endswith("Geodesics::geodesic_inv"):
+                    calls.append(y)
+                return True
+            mir.walk(lhs, v)
+            if not calls:
+                continue
+            n += 1
+            T = _fnum(c[3])
+            direct = lhs[0] == "proj" and lhs[2] == ("elem", 3) and lhs[1][0] == "call"
+            N = caps[0][0] if caps else None
+            ok = direct and T is not None and N is not None and 0 <= T < N
+            cx.ob("R-ITER-CAP-AGREE", "%s/threshold" % fn, ok,
+                  "the operator's non-convergence threshold %s is below geodesic_inv's iteration cap %s and tests the "
+                  "returned count" % (T, N) if ok else
+                  "the geodesic operator tests non-convergence as `count > %s` but %s: an unconverged solution is returned "
+                  "as valid" % (T, ("geodesic_inv never iterates more than %s times" % N) if direct else
+                                "the value tested is not element 3 as returned by geodesic_inv"), cx.where(t["span"]))
+    if n == 0:
+        cx.ob("R-ITER-CAP-AGREE", "inner_op::geodesic::inv/threshold", False,
+              "the geodesic operator does not test the iteration count returned by geodesic_inv: non-convergence is "
+              "not detected", cx.where(cx.f.fn("inner_op::geodesic::inv").d["span"]))
+    cx.count("R-ITER-CAP-AGREE", "threshold_tests", n)
+
+
+def _fnum(t):
+    if t[0] == "const":
+        v = t[2]
+        if isinstance(v, tuple) and v and v[0] == "float":
+            return float(v[1])
+        if isinstance(v, (int, float)) and not isinstance(v, bool):
+            return float(v)
+    return None
+
+
+# ---------------------------------------------------------------------------------------------------------------------
+# R-ANGLE-RANGE (C19): angle normalisation returns an equivalent angle in the stated range
+
+import math
+
+ANGLE_RANGES = {
+    "math::angular::normalize_symmetric": (-math.pi, math.pi),
+    "math::angular::normalize_positive": (0.0, 2 * math.pi),
+}
+
+
+def _const_val(t):
+    """numeric value of a constant expression (literals, PI, products and sums of them)"""
+    v = _fnum(t)
+    if v is not None:
+        return v
+    if t[0] == "bin" and t[1] in ("Mul", "Add", "Sub", "Div"):
+        a, b = _const_val(t[2]), _const_val(t[3])
+        if a is None or b is None:
+            return None
+        return {"Mul": a * b, "Add": a + b, "Sub": a - b, "Div": a / b if b else None}[t[1]]
+    if t[0] == "un" and t[1] == "Neg":
+        a = _const_val(t[2])
+        return -a if a is not None else None
+    return None
+
+
+def _affine_in(t, R, sgn):
+    """t as (coefficient of R, constant) under the assumption signum(R) = sgn; None if not affine in R"""
+    if t == R:
+        return (1.0, 0.0)
+    c = _const_val(t)
+    if c is not None:
+        return (0.0, c)
+    if t[0] == "call" and isinstance(t[1], str) and t[1].endswith("::signum") and t[2] and t[2][0] == R:
+        return (0.0, float(sgn))
+    if t[0] == "bin":
+        a, b = _affine_in(t[2], R, sgn), _affine_in(t[3], R, sgn)
+        if a is None or b is None:
+            return None
+        if t[1] == "Add":
+            return (a[0] + b[0], a[1] + b[1])
+        if t[1] == "Sub":
+            return (a[0] - b[0], a[1] - b[1])
+        if t[1] == "Mul":
+            if a[0] == 0.0:
+                return (a[1] * b[0], a[1] * b[1])
+            if b[0] == 0.0:
+                return (b[1] * a[0], b[1] * a[1])
+            return None
+    if t[0] == "un" and t[1] == "Neg":
+        a = _affine_in(t[2], R, sgn)
+        return (-a[0], -a[1]) if a else None
+    return None
+
+
+@rule("R-ANGLE-RANGE", ["C19"])
+def r_angle_range(cx):
+    """normalize_symmetric / normalize_positive reduce the angle with `%` (remainder R = (x + d) % m, whose sign follows
+    the dividend: R in (-m, m)) and then shift it. By case analysis on the sign of R (interval arithmetic on the
+    affine forms of the returned expressions, branch conditions `R < 0` respected) every returned value lies in the
+    documented range, and differs from the input by a multiple of 2 pi."""
+    n = 0
+    for name, (lo, hi) in sorted(ANGLE_RANGES.items()):
+        f = cx.f.fn(name)
+        where = cx.where(f.d["span"])
+        # the remainder term
+        rems = []
+        for bb, i, s in f.all_stmts():
+            if s["k"] == "assign" and s["rv"]["k"] == "bin" and s["rv"].get("op") == "Rem":
+                rems.append(f.rvalue(s["rv"], (bb, i)))
+        if len(rems) != 1:
+            cx.ob("R-ANGLE-RANGE", name, False, "%s: expected exactly one `%%` reduction, found %d" % (name, len(rems)), where)
+            continue
+        R = rems[0]
+        m = _const_val(R[3])
+        dvd = _affine_in(R[2], ("arg", 1), 1)
+        if m is None or m <= 0 or dvd is None or dvd[0] != 1.0:
+            cx.ob("R-ANGLE-RANGE", name, False, "%s: the reduction is not (angle + d) %% m with constant m > 0" % name, where)
+            continue
+        d = dvd[1]
+        n += 1
+        bad = None
+        for sgn, (rlo, rhi) in ((1, (0.0, m)), (-1, (-m, 0.0))):
+            for (rb, ri, kind, path, payload) in f.defs().get(0, ()):
+                if kind != "full":
+                    bad = bad or "the return value is not assigned by plain assignments"
+                    continue
+                # is this assignment feasible under the sign assumption? look at dominating `R < 0` tests
+                feasible = True
+                for gb in sorted(f.reachable()):
+                    t = f.term(gb)
+                    if t["k"] != "switch":
+                        continue
+                    c = f.operand(t["discr"], f.end_point(gb))
+                    if c[0] == "bin" and c[1] in ("Lt", "Ge") and c[2] == R and _const_val(c[3]) == 0.0:
+                        false_bb = [b for v, b in t["targets"] if v == 0]
+                        true_bb = t["otherwise"]
+                        neg_bb = true_bb if c[1] == "Lt" else (false_bb[0] if false_bb else None)
+                        pos_bb = (false_bb[0] if false_bb else None) if c[1] == "Lt" else true_bb
+                        if sgn == 1 and neg_bb is not None and f.dominates(neg_bb, rb) and len(f.pred[neg_bb]) == 1:
+                            feasible = False
+                        if sgn == -1 and pos_bb is not None and f.dominates(pos_bb, rb) and len(f.pred[pos_bb]) == 1:
+                            feasible = False
+                if not feasible:
+                    continue
+                v = f.rvalue(payload["rv"], (rb, ri))
+                alts = v[2] if v[0] == "phi" else (v,)
+                for alt in alts:
+                    a = _affine_in(alt, R, sgn)
+                    if a is None:
+                        bad = bad or "a returned expression is not an affine function of the remainder"
+                        continue
+                    vals = (a[0] * rlo + a[1], a[0] * rhi + a[1])
+                    eps = 1e-9
+                    if min(vals) < lo - eps or max(vals) > hi + eps:
+                        bad = bad or "for a %s remainder the result ranges over [%.4f, %.4f], outside [%.4f, %.4f]" % (
+                            "non-negative" if sgn == 1 else "negative", min(vals), max(vals), lo, hi)
+                    shift = (d + a[1]) / (2 * math.pi)
+                    if a[0] != 1.0 or abs(shift - round(shift)) > 1e-9:
+                        bad = bad or "the result differs from the input by %.4f, not a multiple of 2 pi" % (d + a[1])
+        cx.ob("R-ANGLE-RANGE", name, bad is None,
+              "%s returns input + 2 pi k within [%.4f, %.4f] for either sign of the remainder" % (name, lo, hi)
+              if bad is None else "%s: %s" % (name, bad), where)
+    cx.count("R-ANGLE-RANGE", "functions", n)
